@@ -200,6 +200,7 @@ func cmdCheck(id string, args []string) int {
 	}
 	evPath := filepath.Join(outRoot, "evidence", id+".json")
 	os.Remove(evPath)
+	os.RemoveAll(filepath.Join(outRoot, "replays", id)) // replays of earlier runs would be mistaken for this run's
 	d, err := loadDescriptor(root, id)
 	if err != nil {
 		fmt.Println("INCONCLUSIVE:", err)
